@@ -170,4 +170,6 @@ def run(chk):
     chk.floor_count("C20.R3:deferred calls in close/roll", n, 3)
     c06.close_flatten(chk, "C20")
     core_rules.fresh_read_rules(chk, "C20")
-    tree_rules.setup_from_parent_rules(chk, "C20")  # a dynamic child's own unit-risk / maturity / roll tables are the ones its algos read
+    tree_rules.setup_from_parent_rules(chk, "C20")
+    from .c16 import closeout_quantity
+    closeout_quantity(chk)  # a dynamic child's own unit-risk / maturity / roll tables are the ones its algos read
